@@ -234,10 +234,15 @@ type vfFetchResult struct {
 
 // vfFetch fetches one partition by topic name.
 func vfFetch(h *handler, version int16, topic string, partition int32, offset int64, maxBytes int32) (vfFetchResult, error) {
+	return vfFetchMax(h, version, topic, partition, offset, maxBytes, 1<<30)
+}
+
+// vfFetchMax is vfFetch with the request-level MaxBytes (fetch.max.bytes) chosen by the caller.
+func vfFetchMax(h *handler, version int16, topic string, partition int32, offset int64, maxBytes, reqMaxBytes int32) (vfFetchResult, error) {
 	req := kmsg.NewPtrFetchRequest()
 	req.Version = version
 	req.MaxWaitMillis = 0
-	req.MaxBytes = 1 << 30
+	req.MaxBytes = reqMaxBytes
 	rt := kmsg.NewFetchRequestTopic()
 	rt.Topic = topic
 	rp := kmsg.NewFetchRequestTopicPartition()
